@@ -14,7 +14,7 @@ func srvGenCfg(r *rand.Rand, tier, flavour string) *SrvGenCfg {
 	p.V4, p.V6, p.Labels = p.V4[:3], p.V6[:2], p.Labels[:2]
 	p.NHGs, p.NHs = p.NHGs[:3], p.NHs[:3]
 	cfg := &SrvGenCfg{
-		Srv:   SrvCfg{Fwd: r.IntN(4) != 0, Hook: r.IntN(2) == 0, VRFs: []string{"VRF1"}, Default: "DEFAULT"},
+		Srv:   SrvCfg{Fwd: r.IntN(4) != 0, Hook: r.IntN(2) == 0, VRFs: []string{"VRF1"}, Default: "DEFAULT", NoCheck: (flavour == "flushget" || flavour == "answers" || flavour == "malformed") && r.IntN(15) == 0},
 		Pools: p, Steps: 45, MaxSess: 3, WViol: 40, WStamp: 120, WMalform: 40, WFlush: 25, WGet: 40, WClose: 25, WElec: 60, BatchMax: 3, FIB: 2,
 	}
 	if tier == "thorough" {
@@ -51,7 +51,7 @@ func srvCase(name string, cfg *SrvGenCfg, evs []SEv) *CaseSpec {
 		}
 		return RunSrvHistory(name, cfg, sub)
 	}, Inputs: func() []string {
-		o := []string{fmt.Sprintf("srv.new %s fwd=%s hook=%s %s", S(cfg.Srv.Default), B(cfg.Srv.Fwd), B(cfg.Srv.Hook), LS(cfg.Srv.VRFs))}
+		o := []string{fmt.Sprintf("srv.new %s fwd=%s hook=%s %s check=%s", S(cfg.Srv.Default), B(cfg.Srv.Fwd), B(cfg.Srv.Hook), LS(cfg.Srv.VRFs), B(!cfg.Srv.NoCheck))}
 		for _, e := range evs {
 			switch e.Kind {
 			case "msg":
@@ -197,10 +197,49 @@ func srvAnswersCorpus() []*CaseSpec {
 	return out
 }
 
+// srvMalformedCorpus: a malformed operation that carries the id of an operation that is held (a
+// successor that numbers its operations from the start again, or a client reusing an id): it is
+// answered FAILED and the held operation stays held.
+func srvMalformedCorpus() []*CaseSpec {
+	cfg := &SrvGenCfg{Srv: SrvCfg{Fwd: true, VRFs: []string{"VRF1"}, Default: "DEFAULT"}, Pools: DefaultPools()}
+	out := []*CaseSpec{}
+	for _, fib := range []bool{false, true} {
+		for variant := 0; variant < 3; variant++ {
+			fib, variant := fib, variant
+			b := &cutBuilder{next: 1}
+			c := b.connect()
+			b.params(c, fib)
+			b.announce(c)
+			b.ops(c, b.heldOp(5, "10.0.0.0/8", 77))
+			bad := &spb.AFTOperation{Id: 5, NetworkInstance: "DEFAULT", Op: spb.AFTOperation_DELETE, ElectionId: b.id()}
+			switch variant {
+			case 0:
+				bad.Entry = &spb.AFTOperation_NextHop{NextHop: &aftpb.Afts_NextHopKey{Index: 0, NextHop: &aftpb.Afts_NextHop{}}}
+			case 1:
+				bad.Entry = &spb.AFTOperation_Ipv4{Ipv4: &aftpb.Afts_Ipv4EntryKey{Prefix: "not-a-prefix", Ipv4Entry: &aftpb.Afts_Ipv4Entry{}}}
+			default:
+				bad.Entry = &spb.AFTOperation_Mpls{Mpls: &aftpb.Afts_LabelEntryKey{Label: &aftpb.Afts_LabelEntryKey_LabelUint64{LabelUint64: 1048576}, LabelEntry: &aftpb.Afts_LabelEntry{}}}
+			}
+			// (variant 0, a zero index, is malformed by what it says; the other two are not even a
+			// prefix / a label: the generator's class "bad")
+			cls := "wf"
+			if variant != 0 {
+				cls = "bad"
+			}
+			b.evs = append(b.evs, SEv{Kind: "msg", C: c, MsgKind: "ops", Req: &spb.ModifyRequest{Operation: []*spb.AFTOperation{bad}}, Cls: []string{cls}})
+			// the group arrives: the held operation is installed and acknowledged
+			b.ops(c, b.chain("DEFAULT", "11.0.0.0/8"))
+			out = append(out, srvCase(fmt.Sprintf("srv.malformed/corpus/malformed-delete-with-held-id/%d/%s", variant, B(fib)), cfg, b.evs))
+		}
+	}
+	return out
+}
+
 func init() {
 	regSrvMode("srv.election", "election", 150, 1500, []string{"msg.elec.open", "msg.ops.open"})
 	regSrvMode("srv.answers", "answers", 150, 1500, []string{"msg.ops.open", "add.cascade"})
 	modes["srv.answers"].Corpus = srvAnswersCorpus
+	defer func() { modes["srv.malformed"].Corpus = srvMalformedCorpus }()
 	regSrvMode("srv.protocol", "protocol", 200, 2000, []string{"msg.multi.3", "msg.empty.12", "msg.params.open"})
 	regSrvMode("srv.malformed", "malformed", 150, 1500, []string{"msg.ops.open"})
 	regSrvMode("srv.flushget", "flushget", 150, 1500, []string{"flush.ok", "flush.rejected", "get.ok", "get.err", "rebuild.ok"})
